@@ -11,6 +11,12 @@ op:
             "queries":[T|null…]}}          T = {"cls":id} | {"base":name}
   | {"out":{"error":"missing","ns":ns}} | {"out":{"error":"unexisting","ns":ns,"ref":{"q","n"}}}
   | {"err":"fuel"} | {"err":"bad-op"}
+  every "out" also carries
+    "doc": [[ns, rule, [D…]]…]   the documented resolution `docResolve` of every reference of every rule of
+                                 every file of the request, D = {"rule":[ns,name]} | {"base":name} | null
+    "loadable": bool             `docLoadable` for S = the optional request field "closure" (list of ns; null without it)
+  and an "unexisting" answer carries "failing": every reference of the failing file that cannot be resolved at
+  that point (the loader is run again without the reported reference until that file's second pass goes through).
 -/
 open Lean Wire Imp
 
@@ -47,26 +53,69 @@ def entryJson (e : ResEntry) : Json :=
   Json.mkObj [("cls", toJson e.cls), ("ns", toJson e.ns), ("rule", toJson e.rule.name),
     ("targets", Json.arr (e.targets.map targetJson).toArray)]
 
+def specJson : Option SpecTarget → Json
+  | some (.rule ns n) => Json.mkObj [("rule", Json.arr #[toJson ns, toJson n])]
+  | some (.base n) => Json.mkObj [("base", toJson n)]
+  | none => Json.null
+
+def docJson (files : List (Ns × File)) : Json :=
+  let fs := mkFS files
+  Json.arr (files.flatMap fun (ns, f) => f.rules.map fun rule =>
+    Json.arr #[toJson ns, toJson rule.name, Json.arr (rule.refs.map fun r => specJson (docResolve fs ns r)).toArray]).toArray
+
+/-- the file `ns` without the reference `r` -/
+def dropRef (files : List (Ns × File)) (ns : Ns) (r : Ref) : List (Ns × File) :=
+  files.map fun (k, f) =>
+    if k = ns then (k, { f with rules := f.rules.map fun rule => { rule with refs := rule.refs.filter (· != r) } })
+    else (k, f)
+
+/-- every reference of file `ns` that fails in the state in which its second pass runs: the reported one, then
+the one reported when that is removed, … (what is loaded before does not depend on the references of `ns`) -/
+def failingRefs (main : Seg) (ns : Ns) : Nat → List (Ns × File) → List Ref
+  | 0, _ => []
+  | n + 1, files =>
+    match loadMain (mkFS files) (files.length + 1) main with
+    | .error (.unexisting ns' r) => if ns' = ns then r :: failingRefs main ns n (dropRef files ns r) else []
+    | _ => []
+
+def refCount (files : List (Ns × File)) (ns : Ns) : Nat :=
+  match files.lookup ns with
+  | some f => (f.rules.map (·.refs.length)).sum
+  | none => 0
+
 def handle (j : Json) : Json :=
   match getStr? j "op" with
   | some "imports" =>
     match getStr? j "main", (getArr? j "files").bind (·.toList.mapM parseFile),
         (getArr? j "queries").bind (·.toList.mapM parseRef) with
     | some main, some files, some queries =>
+      let closure : Option (Option (List Ns)) :=
+        match getObj? j "closure" with
+        | none => some none
+        | some .null => some none
+        | some cj => (fromJson? cj : Except String (List (List String))).toOption.map some
+      match closure with
+      | none => badOp
+      | some clos =>
+      let common : List (String × Json) := [("doc", docJson files),
+        ("loadable", match clos with
+          | some S => toJson (docLoadable (mkFS files) S main)
+          | none => Json.null)]
       match loadMain (mkFS files) (files.length + 1) main with
       | .error .fuel => fuelOut
       | .error .nostack => fuelOut
       | .error (.missing ns) =>
-        Json.mkObj [("out", Json.mkObj [("error", "missing"), ("ns", toJson ns)])]
+        Json.mkObj [("out", Json.mkObj ([("error", Json.str "missing"), ("ns", toJson ns)] ++ common))]
       | .error (.unexisting ns r) =>
-        Json.mkObj [("out", Json.mkObj [("error", "unexisting"), ("ns", toJson ns), ("ref", refJson r)])]
+        Json.mkObj [("out", Json.mkObj ([("error", Json.str "unexisting"), ("ns", toJson ns), ("ref", refJson r),
+          ("failing", Json.arr ((failingRefs main ns (refCount files ns + 1) files).map refJson).toArray)] ++ common))]
       | .ok st =>
-        Json.mkObj [("out", Json.mkObj [
+        Json.mkObj [("out", Json.mkObj (common ++ [
           ("opened", toJson st.opened),
           ("classes", Json.arr (st.classes.map fun (ns, n) => Json.arr #[toJson ns, toJson n]).toArray),
           ("resolved", Json.arr (st.resolved.map entryJson).toArray),
           ("queries", Json.arr (queries.map fun q =>
-              match getItem st q with | some t => targetJson t | none => Json.null).toArray)])]
+              match getItem st q with | some t => targetJson t | none => Json.null).toArray)]))]
     | _, _, _ => badOp
   | _ => badOp
 
